@@ -24,11 +24,22 @@ pub struct MatchRec { pub pattern: usize, pub id: u32, pub caps: Vec<(u32, usize
 #[derive(Clone, Debug, PartialEq, Eq, Hash, PartialOrd, Ord)]
 pub struct CapRec { pub pattern: usize, pub match_id: u32, pub cap: u32, pub node: usize }
 
+thread_local! { pub static NODE_MISMATCH: std::cell::RefCell<Option<String>> = std::cell::RefCell::new(None); }
+
 pub struct Env<'a> { pub tree: &'a Tree, pub text: &'a [u8], pub xt: &'a XTree, pub ids: HashMap<usize, usize> }
 
 impl<'a> Env<'a> {
     pub fn new(tree: &'a Tree, text: &'a [u8], xt: &'a XTree) -> Self { Env { tree, text, xt, ids: xt.nodes.iter().enumerate().map(|(i, n)| (n.id, i)).collect() } }
-    fn idx(&self, n: Node) -> usize { *self.ids.get(&n.id()).unwrap_or(&usize::MAX) }
+    fn idx(&self, n: Node) -> usize {
+        let i = *self.ids.get(&n.id()).unwrap_or(&usize::MAX);
+        // the node handed out must be that node of the tree: same kind (aliases included) and extent
+        if let Some(x) = self.xt.nodes.get(i) {
+            if x.kind_id != n.kind_id() || x.start != n.start_byte() || x.end != n.end_byte() {
+                NODE_MISMATCH.with(|m| *m.borrow_mut() = Some(format!("node #{} {} was handed out as kind {} {}..{}", i, self.xt.brief(i), n.kind(), n.start_byte(), n.end_byte())));
+            }
+        }
+        i
+    }
     pub fn matches(&self, cursor: &mut QueryCursor, q: &Query) -> Vec<MatchRec> {
         let mut out = vec![];
         let mut it = cursor.matches(q, self.tree.root_node(), self.text);
@@ -596,6 +607,7 @@ pub fn worker(ctx: &Ctx, res: &mut ShardResult) {
                 crate::case!("{}", case_json(lname, src, d, json!({})));
                 res.states += 1;
                 check_pair(ctx, lname, &info.language, src, q, &other, &env, res);
+                if let Some(m) = NODE_MISMATCH.with(|m| m.borrow_mut().take()) { res.violation("captured-node-differs-from-tree-node", format!("query {:?} on {:?}: {}", src, String::from_utf8_lossy(d), m), case_json(lname, src, d, json!({}))); }
                 if res.too_many() { return; }
             }
             if lname == "stmts" { idx += 1; if ctx.mine(idx) { crate::case!("{}", case_json(lname, "predicates", d, json!({}))); check_predicates(lname, &info.language, &env, res); } }
